@@ -12,7 +12,6 @@
                         indices before the first data receive is posted)
    c06_fixnew = true  : the code after fixes/C06-1.patch (skipZeroIndices() before the first post). *)
 From Coq Require Import List Arith Bool PeanoNat NArith.
-From DuneV Require Import Params_gen.
 Import ListNotations.
 
 Definition c06_msg := list nat.
@@ -388,8 +387,80 @@ Definition c06_case_fuel (c : c06_cfg) : nat :=
    (MPI_Comm, map, size) and (Interface, size)), else the macro DUNE_PARALLEL_MAX_COMMUNICATION_BUFFER_SIZE if the
    translation unit defines it, else the literal default re-read from the source.  Copy construction and copy
    assignment copy maxBufferSize_ and the interface pointer and duplicate the communicator: same configuration. *)
-Definition c06_ctor_buf (explicit macro : option nat) : nat :=
+Definition c06_ctor_buf_d (dflt : nat) (explicit macro : option nat) : nat :=      (* dflt: see C06_Model_Params.v *)
   match explicit with
   | Some b => b
-  | None => match macro with Some m => m | None => N.to_nat c06_param_default_buffer end
+  | None => match macro with Some m => m | None => dflt end
   end.
+
+(* ------------------------------------------------------------------ the communicator object and its special members *)
+(* what a VariableSizeCommunicator holds: maxBufferSize_, the pointer to the interface map (an identity, not a copy)
+   and its own duplicate of the MPI communicator (every MPI_Comm_dup yields a context no other object has: `fresh`) *)
+Record c06_vsc := mkVSC { vsc_buf : nat; vsc_iface : nat; vsc_comm : nat }.
+
+(* the six constructors: (comm|Interface) x (no size | macro | explicit size) *)
+Definition c06_vsc_ctor_d (dflt : nat) (explicit macro : option nat) (iface fresh : nat) : c06_vsc :=
+  mkVSC (c06_ctor_buf_d dflt explicit macro) iface fresh.
+
+(* VariableSizeCommunicator(const VariableSizeCommunicator& other) *)
+Definition c06_vsc_copy (other : c06_vsc) (fresh : nat) : c06_vsc := mkVSC (vsc_buf other) (vsc_iface other) fresh.
+
+(* operator=: "if(this == &other) return *this;" else copy the two members, free the own communicator, dup the other's *)
+Definition c06_vsc_assign (this other : c06_vsc) (same_object : bool) (fresh : nat) : c06_vsc :=
+  if same_object then this else mkVSC (vsc_buf other) (vsc_iface other) fresh.
+
+(* the two point-to-point channels of a link are told apart by their tags *)
+Definition c06_channels_separate_t (tag_size tag_data tag_size_recv tag_data_recv : N) : bool :=
+  negb (N.eqb tag_size tag_data) && N.eqb tag_size tag_size_recv && N.eqb tag_data tag_data_recv.
+
+(* ------------------------------------------------------------------ the outstanding-request counters of the progress loops
+   (size_to_send/size_to_recv in communicateSizes, no_to_send/no_to_recv in communicateVariableSize) *)
+Definition c06_snonnull (l : c06_link) : bool := match l_sreq l with SNull => false | _ => true end.
+Definition c06_rnonnull (l : c06_link) : bool := match l_rreq l with RNull => false | _ => true end.
+
+(* std::count_if(send_requests.begin(), send_requests.end(), req != MPI_REQUEST_NULL) of process p *)
+Definition c06_count_send (p : nat) (ls : list c06_link) : nat := length (filter (fun l => (l_src l =? p) && c06_snonnull l) ls).
+Definition c06_count_recv (p : nat) (ls : list c06_link) : nat := length (filter (fun l => (l_dst l =? p) && c06_rnonnull l) ls).
+
+Definition c06_counters := nat -> nat * nat.       (* process -> (no_to_send, no_to_recv) *)
+
+(* counter -= checkAndContinue(...): a completed request counts as finished iff its tracker is finished (send: before
+   repacking; receive: after unpacking and skipZeroIndices); entering the next loop recounts *)
+Definition c06_counters_step (c : c06_cfg) (e : c06_event) (c' : c06_cfg) (k : c06_counters) : c06_counters :=
+  match e with
+  | GLink j LSendDone =>
+      match nth_error (c_links c) j with
+      | Some l => if c06_sfin (l_s l) then fun p => if p =? l_src l then (fst (k p) - 1, snd (k p)) else k p else k
+      | None => k
+      end
+  | GLink j LRecvDone =>
+      match nth_error (c_links c') j with
+      | Some l' => if c06_rfin (l_r l') then fun p => if p =? l_dst l' then (fst (k p), snd (k p) - 1) else k p else k
+      | None => k
+      end
+  | GSwitch q => fun p => if p =? q then (c06_count_send q (c_links c'), c06_count_recv q (c_links c')) else k p
+  | _ => k
+  end.
+
+
+(* the whole execution: counters initialised by count_if when the size loop starts, updated by the loop arithmetic *)
+Definition c06_counters_init (c : c06_cfg) : c06_counters := fun p => (c06_count_send p (c_links c), c06_count_recv p (c_links c)).
+
+
+(* the runner with the counters carried along (what the driver executes) *)
+Fixpoint c06_run_k (fuel : nat) (sched : list nat) (c : c06_cfg) (k : c06_counters) : c06_cfg * bool * c06_counters :=
+  match fuel with
+  | 0 => (c, false, k)
+  | S f =>
+      match c06_enabled c with
+      | [] => (c, true, k)
+      | e0 :: es =>
+          let n := S (length es) in
+          let '(choice, sched') := match sched with [] => (0, []) | x :: t => (x mod n, t) end in
+          match c06_gstep c (nth choice (e0 :: es) e0) with
+          | Some c' => c06_run_k f sched' c' (c06_counters_step c (nth choice (e0 :: es) e0) c' k)
+          | None => (c, false, k)
+          end
+      end
+  end.
+
